@@ -40,6 +40,9 @@ func (scTCPAB) GenCfg(rng *sim.Rand, tier, prop, variant string) json.RawMessage
 			RcvBufB: []int{0, 4096}[rng.Intn(2)], CloseMix: rng.Intn(2)}
 		c.SackB = c.SackA
 		c.Bytes = []int{[]int{0, 1, 3000, 20000}[rng.Intn(4)], []int{0, 2000}[rng.Intn(2)]}
+		if rng.Chance(0.25) {
+			c.ServerFirst, c.Bytes[0] = true, 0
+		}
 		i := rng.Intn(64)
 		c.DropIDs = []int{i}
 		if rng.Chance(0.75) {
@@ -63,6 +66,13 @@ func (scTCPAB) GenCfg(rng *sim.Rand, tier, prop, variant string) json.RawMessage
 		if c.Budget > 0 {
 			c.Budget = rng.Range(1, 6)
 			c.Drop = []float64{0.03, 0.1, 0.3}[rng.Intn(3)]
+		}
+		if rng.Chance(0.15) {
+			// the server speaks first: the client sends nothing after the handshake until the server is done
+			c.ServerFirst = true
+			for i := 0; i < len(c.Bytes); i += 2 {
+				c.Bytes[i] = 0
+			}
 		}
 	}
 	if prop == "C01" {
